@@ -119,7 +119,7 @@ def genStep (c : Ctx) (k : Nat) : Except GenErr StepCode :=
     let threads := !c.kind.isAsync && c.kind.isSpawn && decide (c.activeCount k ≥ 2)
     .ok {
       k := k
-      tbs := if threads then c.activeIdx k else []
+      tbs := if threads then (c.activeIdx k).map (fun b => (b, b)) else []
       defs := defs
       form := form
       elems := elems
@@ -133,9 +133,9 @@ def Ctx.activeVars (c : Ctx) (k : Nat) : List Var := (c.activePats k).map (·.va
 def Ctx.inactiveVars (c : Ctx) (k : Nat) : List Var :=
   (c.pats.zipIdx.filter fun (_, i) => !c.isActive k i).map (·.1.var)
 
-/-- labels of the `match __fail_index` arms -/
+/-- labels of the `match __fail_index` arms: position among the active branches (= position in the flag array) -/
 def Ctx.failArms (c : Ctx) (k : Nat) : List (Nat × Var) :=
-  (c.pats.zipIdx.filter fun (_, i) => c.isActive k i).map fun (p, i) => (i, p.var)
+  (c.activeVars k).zipIdx.map fun (x, pos) => (pos, x)
 
 /-- `join_steps` for a step that has a successor -/
 def genLink (c : Ctx) (k : Nat) : Link :=
@@ -185,7 +185,7 @@ def gen (p : Input) (kind : Kind) : Except GenErr Code :=
     match genSteps c (c.maxSteps - 1) 0 with
     | .error e => .error e
     | .ok steps =>
-      .ok { kind := kind, fcp := c.fcp, handlerDef := p.handler.map (·.2), steps := steps,
+      .ok { kind := kind, userNames := p.branches.map (fun b => b.pat.map (·.ident)), fcp := c.fcp, handlerDef := p.handler.map (·.2), steps := steps,
             handle := genHandle c p.handler }
 
 end JoinModel
